@@ -13,7 +13,7 @@ TRUSTED = ["model coq/Cap/Cap.v hand-written from capability.go; step = one mute
            "acquisition (reduction argument in the file header)",
            "harness scheduler: enabledness of a paused goroutine is probed with sync.Mutex.TryLock; goroutine identity via runtime.Stack"]
 MODELLED = ["sync.Mutex (free/held), channels done/resolved (closed flag; close of a closed channel = panic)",
-            "application ClientHook (Send/Recv return when the environment says so; Shutdown returns)"]
+            "application ClientHook (Send/Recv end when the environment says so, by return or by panic/Goexit recovered by the caller; Shutdown returns)"]
 ASSUMPTIONS = ["the client passed to ClientPromise.Fulfill is not released before Fulfill returns (otherwise the model sets `misuse`)",
                "promises are not resolved into a cycle (the model flags it as misuse)", "a WeakClient value is not used by two goroutines at once"]
 
